@@ -18,7 +18,11 @@ ENTRY = dict(
          "stray types) with the CLIENT's transport failing or blocking every write once the handshake is done, Read under the watchdog "
          "(hang/post-handshake/<version>/<msg>/client-write-fails|blocks/<parrot>); decompression bombs per algorithm (48-96 MiB of zeros in < 64 KiB, declared "
          "1000 and 262144) through decompressCert and live; ServerHello key_share of 0/1/31/32/33/size-1/size/size+1 bytes for every "
-         "group the client sent a share for (hybrid groups all lengths, classical three per client); targeted: "
+         "group the client sent a share for (hybrid groups all lengths, classical three per client); WELL-FORMED but degenerate "
+         "Certificate messages (empty certificate_list, one empty entry, non-empty request context, extensions-only entry, valid+empty "
+         "entries, 300 empty entries, garbage DER, short list length, no body) sent compressed with every algorithm the client "
+         "advertises (exact declared length, clean stream end), uncompressed in place of the TLS 1.3 Certificate, and as TLS 1.2 "
+         "Certificate messages; targeted: "
          "declared 16 MiB / max / max+1, zstd Window_Size 512 / 64 / 8 MiB, brotli WBITS 24 + 16 MiB meta-block, 256 KiB of zeros; "
          "HelloRetryRequest cookies of 1 / 32 / 4000 bytes against custom specs with 1..4 extensions (cookie position checked "
          "against the model), a 65000-byte cookie and a 60000-byte ALPS value against real parrots, resumption followed by a "
